@@ -321,7 +321,7 @@ func runC04(run *Run, seed int64, sc c04Scn, rng *rand.Rand) (out []*c01Result, 
 			}
 			a := live[rng.Intn(len(live))]
 			b := live[rng.Intn(len(live))]
-			switch op := rng.Intn(9); op {
+			switch op := rng.Intn(10); op {
 			case 0:
 				metaGen++
 				a.Del.SetMeta([]byte(fmt.Sprintf("meta-%s-%d", a.Name, metaGen)))
@@ -379,6 +379,22 @@ func runC04(run *Run, seed int64, sc c04Scn, rng *rand.Rand) (out []*c01Result, 
 					rotPhase = 1
 					run.Cell("op", "key-rotation")
 				}
+			case 9:
+				// the application's metadata changes now, UpdateNode is called only seconds later; joins and
+				// state exchanges happen in between
+				metaGen++
+				a.Del.SetMeta([]byte(fmt.Sprintf("meta-%s-%d-late", a.Name, metaGen)))
+				wait := time.Duration(2+rng.Intn(12)) * time.Second
+				go func() {
+					time.Sleep(wait)
+					if !a.Stopped {
+						_ = a.ML().UpdateNode(5 * time.Second)
+					}
+				}()
+				if a != b {
+					go func() { _, _ = b.ML().Join([]string{a.EP.Addr}) }()
+				}
+				run.Cell("op", "update-announced-late")
 			case 6:
 				// a brand-new member arrives while everything else goes on
 				if nextID < sc.N+3 {
